@@ -1135,6 +1135,25 @@ func c14TypeValuesExact(c *cx, id string) {
 			c.r.Check(id, f, "value the type is decided on", "P: the switch is over the attribute value itself", sw.Pos(), tag == "p0.Value", "the switch is over "+tag)
 			return true
 		})
+		// the same decision written as a chain of comparisons
+		f.WalkBody(func(nd ast.Node) bool {
+			be, ok := nd.(*ast.BinaryExpr)
+			if !ok || (be.Op != token.EQL && be.Op != token.NEQ) {
+				return true
+			}
+			for _, side := range []ast.Expr{be.X, be.Y} {
+				if _, isConst := f.ConstStr(side); isConst {
+					continue
+				}
+				v := f.Norm(side, nil)
+				if !strings.Contains(v, "p0.Value") {
+					continue
+				}
+				n++
+				c.r.Check(id, f, "value the type is decided on", "P: the comparison is with the attribute value itself", be.Pos(), v == "p0.Value", "the comparison is with "+v)
+			}
+			return true
+		})
 	}
 	c.r.Floor(id, "type attribute decoders in package stanza", n, 1)
 }
